@@ -2,8 +2,11 @@ package ix
 
 import (
 	"bytes"
+	"encoding/hex"
 	"encoding/json"
 	"fmt"
+	"os"
+	"path/filepath"
 	"strconv"
 	"strings"
 
@@ -62,8 +65,14 @@ func c11Set(res *explore.Result, contents []string, verbose bool) {
 		bases[i] = next
 		next += len(norm[i]) + 1
 	}
-	last := next - 1 // the last file's end-of-file position: the last valid global position
-	nameOf := func(i int) string { return c11Names[c11NameSet][i%len(c11Names[c11NameSet])] }
+	last := next - 1       // the last file's end-of-file position: the last valid global position
+	var diskNames []string // set while the loaded-from-disk variant runs: text.ReadFile names a file by its path
+	nameOf := func(i int) string {
+		if diskNames != nil {
+			return diskNames[i]
+		}
+		return c11Names[c11NameSet][i%len(c11Names[c11NameSet])]
+	}
 	show := func(i, l, c int) string {
 		if nameOf(i) == "" {
 			return fmt.Sprintf("%d:%d", l, c) // documented: a position without a file name renders as line:column
@@ -139,7 +148,25 @@ func c11Set(res *explore.Result, contents []string, verbose bool) {
 			return fs, fl
 		}, "asc"})
 	}
+	if c11NameSet == 0 {
+		// the other documented way to obtain a file: the same bytes read from disk must give the same positions
+		variants = append(variants, variant{"files loaded with text.ReadFile, NewFileSet(files...), ascending queries", func() (*parsley.FileSet, []*text.File) {
+			fl := make([]*text.File, len(contents))
+			pf := make([]parsley.File, len(contents))
+			diskNames = make([]string, len(contents))
+			for i, c := range contents {
+				diskNames[i] = c11OnDisk(c)
+				f, err := text.ReadFile(diskNames[i])
+				if err != nil {
+					panic("C11 harness: cannot read back " + diskNames[i] + ": " + err.Error())
+				}
+				fl[i], pf[i] = f, f
+			}
+			return parsley.NewFileSet(pf...), fl
+		}, "asc"})
+	}
 	for _, v := range variants {
+		diskNames = nil
 		fs, files := v.build()
 		res.Add("states", 1)
 		seenGlobal := map[int]string{}
@@ -214,6 +241,36 @@ func c11Set(res *explore.Result, contents []string, verbose bool) {
 	res.Add("traces", 1)
 }
 
+// c11OnDisk writes content to a scratch file once per process and returns its path.
+var c11Dir string
+var c11Disk = map[string]string{}
+
+func c11OnDisk(content string) string {
+	if p, ok := c11Disk[content]; ok {
+		return p
+	}
+	if c11Dir == "" {
+		d, err := os.MkdirTemp("", "verif-c11-")
+		if err != nil {
+			panic("C11 harness: " + err.Error())
+		}
+		c11Dir = d
+	}
+	p := filepath.Join(c11Dir, "c"+hex.EncodeToString([]byte(content)))
+	if err := os.WriteFile(p, []byte(content), 0o600); err != nil {
+		panic("C11 harness: " + err.Error())
+	}
+	c11Disk[content] = p
+	return p
+}
+
+func c11Cleanup() {
+	if c11Dir != "" {
+		os.RemoveAll(c11Dir)
+		c11Dir, c11Disk = "", map[string]string{}
+	}
+}
+
 type c11Bound struct{ files, maxLen int }
 
 func c11Bounds(tier string) []c11Bound {
@@ -225,6 +282,7 @@ func c11Bounds(tier string) []c11Bound {
 
 func c11Run(env *explore.Env) *explore.Result {
 	res := explore.NewResult()
+	defer c11Cleanup()
 	var idx int64
 	for _, b := range c11Bounds(env.Tier) {
 		contents := c11Contents(b.maxLen)
@@ -272,6 +330,7 @@ func c11Run(env *explore.Env) *explore.Result {
 
 func c11Replay(raw json.RawMessage) *explore.Result {
 	res := explore.NewResult()
+	defer c11Cleanup()
 	var c c11Case
 	if err := json.Unmarshal(raw, &c); err != nil {
 		res.Notes = append(res.Notes, "bad case: "+err.Error())
